@@ -3,10 +3,11 @@
 From SV Require Import Model.PeakHelpers Spec.PeakHelpersSpec Proof.PeakHelpersProof.
 From SV Require Import Model.Peaks Spec.PeaksSpec Proof.PeaksProof Proof.PeaksTheorems Proof.PeaksExamples.
 From SV Require Import Model.Merging Spec.MergingSpec Proof.ReplaceMergedProof Proof.MergePeaksProof.
-From SV Require Import Proof.ReplaceMergedSorted Proof.PeaksNoCut.
+From SV Require Import Proof.ReplaceMergedSorted Proof.PeaksNoCut Proof.MergeWaveformProof.
 From SV Require Import Model.PeakProps Spec.PeakPropsSpec Proof.PeakPropsProof.
+From SV Require Import Model.Widths Spec.WidthsSpec Proof.WidthsProof.
 From SV Require Import Model.Splitting Proof.SplittingProof.
-From SV Require Import Model.SumWaveform Proof.SumWaveformProof.
+From SV Require Import Model.SumWaveform Proof.SumWaveformProof Spec.SumWaveformSpec Proof.SumWaveformSamples.
 From SV Require Import Model.HDR Proof.HDRProof Spec.HDRSpec Proof.HDRLoopProof Proof.HDRDefProof.
 
 (* ------------------------------------------------------------------------------------------ *)
@@ -126,6 +127,35 @@ Theorem C19_merge_adds_and_spans : forall ns nch old p E,
 Proof. exact merge_group_spec. Qed.
 Print Assumptions C19_merge_adds_and_spans.
 
+(* ... and its waveform: for disjoint time-ordered constituents (dt > 0, length >= 0) the buffer
+   they are summed into - each up-sampled by dt / common_dt with the samples divided by that
+   factor - integrates to the sum of the constituents' waveform integrals; the stored waveform is
+   that buffer through store_downsampled_waveform, so it integrates to the same value unless the
+   down-sampling truncates (factor > 1 not dividing the length: T5) *)
+Theorem C19_merge_waveform_conserves_integral : forall ns nch old p E,
+  merge_group ns nch old = Ok (p, E) -> 0 < ns ->
+  Forall (fun q => 0 < mdt q /\ 0 <= mlen q) old -> disjointb old = true ->
+  exists first, hd_error old = Some first /\
+  let cdt := gcdl (mdt first) (map mdt old) in
+  let len0 := (mend (last old first) - mt first) / cdt in
+  let buf := map (fun j => buf_at old cdt (mt first) j 0%Q) (zseqn 0 (Z.to_nat len0)) in
+  let f := ds_factor len0 ns in
+  (qsum buf == qsum (map (fun q => wf_integral (mdata q) (mlen q)) old))%Q /\
+  mdata p = snd (store_downsampled len0 cdt ns buf) /\
+  ((f <= 1 \/ (f | len0)) ->
+   (qsum (mdata p) == qsum (map (fun q => wf_integral (mdata q) (mlen q)) old))%Q).
+Proof. exact merge_group_waveform. Qed.
+Print Assumptions C19_merge_waveform_conserves_integral.
+
+(* sample by sample: inside the slice of a constituent q the buffer holds q's sample
+   (j - i0) / up divided by up (i0 = (q.time - time) / common_dt, up = q.dt / common_dt); slices
+   of disjoint time-ordered peaks do not overlap, so nothing is overwritten *)
+Theorem C19_merge_waveform_samples : forall cdt t0 old lo j acc q,
+  slices_from cdt t0 lo old -> In q old -> p_i0 cdt t0 q <= j < p_end cdt t0 q ->
+  buf_at old cdt t0 j acc = (qget (mdata q) ((j - p_i0 cdt t0 q) / p_up cdt q) / inject_Z (p_up cdt q))%Q.
+Proof. exact buf_at_inside. Qed.
+Print Assumptions C19_merge_waveform_samples.
+
 Theorem C19_merge_peaks_one_group_per_range : forall ns nch ps se gs,
   merge_peaks ns nch ps se = Ok gs ->
   2 <= zlen ps /\ disjointb ps = true /\
@@ -143,6 +173,50 @@ Theorem C19_index_of_fraction_is_definition : forall A len data fs,
   qsorted fs -> index_of_fraction A len data fs = iof_spec A len data fs.
 Proof. exact index_of_fraction_spec. Qed.
 Print Assumptions C19_index_of_fraction_is_definition.
+
+(* compute_widths (K = len(peak["width"]) >= 2, positive area, every fraction below 1 reached):
+   with T(m) = the area-fraction time of the fraction m / (2 (K - 1)) in ns (T of the fraction 1 =
+   the peak length), median_time = T(1/2), width[k] = T(1/2 + k/(2(K-1))) - T(1/2 - k/(2(K-1))),
+   area_decile_from_midpoint[k] = T(k/(K-1)) - T(1/2). *)
+Theorem C19_widths_is_definition : forall K A len dt data, (2 <= K)%nat -> (0 < A)%Q ->
+  (forall m, 0 <= m < 2 * Z.of_nat K - 2 -> iof1 A data 0 0%Q (wfrac K m) <> None) ->
+  compute_widths K A len dt data = widths_spec K A len dt data.
+Proof. exact compute_widths_spec. Qed.
+Print Assumptions C19_widths_is_definition.
+
+(* a proper peak (non-negative samples, area = their sum > 0) reaches every fraction, and every
+   area-fraction time t lies inside the peak and is where the area left of t (whole samples plus
+   the linear part of the sample t falls into) equals the fraction of the area *)
+Theorem C19_widths_proper_peak : forall K A len dt data, (2 <= K)%nat -> (0 < A)%Q ->
+  Forall (fun x => 0 <= x)%Q data -> (A == qsum data)%Q ->
+  compute_widths K A len dt data = widths_spec K A len dt data /\
+  forall m t, 0 <= m <= 2 * Z.of_nat K - 2 -> iof1 A data 0 0%Q (wfrac K m) = Some t ->
+    (0 <= t <= inject_Z (zlen data))%Q /\ (cum_at data t == wfrac K m * A)%Q.
+Proof. exact widths_proper_peak. Qed.
+Print Assumptions C19_widths_proper_peak.
+
+(* the area-fraction time in general (any start index i and area `seen` before it) *)
+Theorem C19_area_fraction_time_is_definition : forall A, (0 < A)%Q -> forall f data i seen t,
+  Forall (fun x => 0 <= x)%Q data -> (seen <= f)%Q -> iof1 A data i seen f = Some t ->
+  (inject_Z i <= t <= inject_Z i + inject_Z (zlen data))%Q /\
+  (seen * A + cum_at data (t - inject_Z i) == f * A)%Q.
+Proof. exact iof1_cum. Qed.
+Print Assumptions C19_area_fraction_time_is_definition.
+
+(* compute_center_time: for non-negative samples with positive sum the center time is
+   time + floor(dt * (mean sample index + 1/2)) and lies inside the peak (the clip is the identity);
+   zero-sum peaks get their start time *)
+Theorem C19_center_time_is_definition : forall time len dt data,
+  Forall (fun x => 0 <= x) data -> 0 < zsum data -> 0 < dt -> len = zlen data ->
+  center_time time len dt data = center_spec time dt data /\
+  time <= center_spec time dt data <= time + len * dt.
+Proof. exact center_time_spec. Qed.
+Print Assumptions C19_center_time_is_definition.
+
+Theorem C19_center_time_of_empty_peak : forall time len dt data, 0 <= len * dt ->
+  zsum (firstn (Z.to_nat len) data) = 0 -> center_time time len dt data = time.
+Proof. exact center_time_empty. Qed.
+Print Assumptions C19_center_time_of_empty_peak.
 
 (* ------------------------------------------------------------------------------------------ *)
 (* _split_peaks: for strictly increasing positive split points ending at n (= len(w)), a parent
@@ -309,6 +383,25 @@ Theorem C19_sum_waveform_all_peaks : forall gains recs prev_i next_i nsr dt lmax
                      rest = mkswpeak (sp_t p) (sp_len p) (sp_dt p) 0 (sp_apc p) (sp_data p) :: pr).
 Proof. exact sw_peaks_conserve. Qed.
 Print Assumptions C19_sum_waveform_all_peaks.
+
+(* sample by sample: the scan over the hits of one peak adds, for exactly the hits it uses (sw_used:
+   not ending before the peak, up to the first one starting after it) and their hit waveforms w
+   (own record completed from the previous / next fragment), to every sample k of the buffer the
+   hit's contribution hit_contrib = gain * w[k - (h_t/dt - p_t/dt)] inside the hit, else 0; the
+   area grows by the hits' areas inside the peak, area_per_channel[c] by those of channel c *)
+Theorem C19_sum_waveform_sample_is_hit_sum :
+  forall gains recs prev_i next_i nsr dt lmax p_t p_len p_dt nch, 0 <= p_len ->
+  forall hs buf area apc buf' area' apc',
+    Forall (fun h => 0 <= sh_ch h < Z.of_nat nch) hs ->
+    length buf = Z.to_nat p_len -> length apc = nch ->
+    sw_scan gains recs prev_i next_i nsr dt lmax p_t p_len p_dt hs buf area apc = Ok (buf', area', apc') ->
+    exists ws, Forall2 (fun h w => hit_wave recs prev_i next_i nsr lmax h = Ok w) (sw_used dt p_t p_len hs) ws /\
+      let hw := combine (sw_used dt p_t p_len hs) ws in
+      (forall k, 0 <= k < p_len -> zget buf' k = zget buf k + sum_contrib gains dt p_t hw k) /\
+      area' = area + sum_area gains dt p_t p_len hw /\
+      (forall c, nth c apc' 0 = nth c apc 0 + sum_area_ch gains dt p_t p_len c hw).
+Proof. exact sw_scan_samples. Qed.
+Print Assumptions C19_sum_waveform_sample_is_hit_sum.
 
 (* T5: [1,1,1,1,7] in a 4-sample buffer -> [2,2] (half units: 4+4 = 8 against an area of 22) *)
 Theorem C19_sum_waveform_area_after_downsampling_refuted :
